@@ -3,7 +3,7 @@
    pixel (an index into the compacted valid sources, or n) does not depend on the block it is queried in. *)
 From Coq Require Import ZArith List Lia Bool Reals Lra.
 From PR Require Import Base.ZX Base.Slice Model.Partition Model.Blockwise Model.BlockwiseSpec
-     Proofs.C05_assemble Proofs.C05_pipeline Proofs.C05_mask Proofs.C05_dims.
+     Proofs.C05_assemble Proofs.C05_pipeline Proofs.C05_mask Proofs.C05_dims Proofs.C05_flatten.
 Import ListNotations.
 Open Scope Z_scope.
 
@@ -137,4 +137,28 @@ Print Assumptions C05_dims_dtype_preserved.
 Example C05_dims_ex :      (* dims (time=7, rows=8, cols=9, bands=3), swath dims (rows, cols) -> (time, y, x, bands) *)
   result_meta 1 0 (mk_meta [5; 2; 3; 4] [7; 8; 9; 3] 11 [(1, 2)]) [2; 3] 20 30
   = mk_meta [5; 1; 0; 4] [7; 20; 30; 3] 11 [(1, 2)].
+Proof. reflexivity. Qed.
+
+(* geo-dim flattening with leading / trailing extra dims: with the source data a flat C-order buffer of shape
+   (L, S, T) (L, T = products of the leading / trailing non-geo sizes, S = flattened geo dims), element [l][i][j][t]
+   of the result (leading dims, y, x, trailing dims) is buffer element ((l*S + s)*T + t) of the selected source
+   pixel s, or the fill value -- for every chunking of the target *)
+Theorem C05_flatten_index : forall (L Sn T : nat) fill voi q rows cols vii data l i j t d,
+  let n := count_true vii in
+  let k := index_pointwise n voi q i j in
+  Forall (fun x => 0 <= x) rows -> Forall (fun x => 0 <= x) cols ->
+  length data = (L * Sn * T)%nat -> length vii = Sn ->
+  (l < L)%nat -> 0 <= i < sumZ rows -> 0 <= j < sumZ cols -> (t < T)%nat ->
+  0 <= q i j <= n ->
+  nth t (nth (Z.to_nat j) (nth (Z.to_nat i) (nth l
+      (resample_nested L Sn T fill rows cols
+         (fun rs cs => qnd_block n voi q (sstart rs) (slen rs) (sstart cs) (slen cs)) vii data) []) []) []) d
+  = if k =? -1 then fill else nth ((l * Sn + src_of vii k) * T + t) data d.
+Proof. exact flatten_index. Qed.
+Print Assumptions C05_flatten_index.
+Example C05_flatten_ex :     (* 2 leading planes x 3 source pixels (pixel 1 invalid) x 2 trailing values; target 1 x 3 *)
+  resample_nested 2 3 2 (-9) [1] [2; 1]
+    (fun rs cs => qnd_block 2 (fun _ _ => true) (fun _ j => j) (sstart rs) (slen rs) (sstart cs) (slen cs))
+    [true; false; true] [100; 101; 110; 111; 120; 121; 200; 201; 210; 211; 220; 221]
+  = [[[[100; 101]; [120; 121]; [-9; -9]]]; [[[200; 201]; [220; 221]; [-9; -9]]]].
 Proof. reflexivity. Qed.
